@@ -237,20 +237,23 @@ Proof.
   rewrite Hc in Hch. inversion Hch; subst nh resth. clear Hch.
   rewrite (gstep_inside k g t st th n rest Ht Hc Hin).
   pose proof (lstep_measure k g U (universe_nodup g calls) (universe_gnames g calls) n (s_sh st) (t_pc th) Ti HnU) as L.
+  pose proof (lstep_ok k g n (s_sh st) (t_pc th) Ti) as LO.
   destruct (lstep k g n (s_sh st) (t_pc th)) as [sh' [p'|res]]; unfold mu.
   - cbn [s_sh s_thr].
     pose proof (list_sum_set_nth thread_cost (s_thr st) t th (with_pc th p') Ht) as S.
     rewrite (thread_cost_with_pc _ _ _ _ Hc) in S. lia.
-  - destruct L as [Lu Lp].
+  - destruct L as [Lu Lp]. destruct LO as [_ ->].
+    set (res := result_solo k g n).
+    assert (Ecm : cmap (finish_shared res sh') = cmap sh') by reflexivity.
     pose proof (list_sum_set_nth thread_cost (s_thr st) t th (finish_thread th res) Ht) as S.
     rewrite (thread_cost_finish _ _ _ res Hc) in S.
     unfold release; cbn [s_sh s_lock s_waitq s_thr].
-    destruct (s_waitq st) as [|w q] eqn:Eq; [cbn [s_sh s_thr]; lia|].
+    destruct (s_waitq st) as [|w q] eqn:Eq; [cbn [s_sh s_thr]; rewrite Ecm; lia|].
     destruct (gi_waitq _ _ _ _ I) as [_ Hw].
     assert (Hwin : In w (s_waitq st)) by (rewrite Eq; left; reflexivity).
     apply Hw in Hwin. destruct Hwin as (tw & Htw & Hpw).
     assert (Hwt : w <> t) by (intros ->; rewrite Ht in Htw; inversion Htw; subst tw; apply Hin; right; exact Hpw).
-    rewrite nth_error_set_nth_neq by congruence. rewrite Htw. cbn [s_sh s_thr].
+    rewrite nth_error_set_nth_neq by congruence. rewrite Htw. cbn [s_sh s_thr reset_reg cmap]. rewrite Ecm.
     pose proof (gi_wait_calls _ _ _ _ I _ _ Htw Hpw) as Hcw.
     destruct (t_calls tw) as [|nw restw] eqn:Ecw; [congruence|].
     assert (Htw1 : nth_error (set_nth (s_thr st) t (finish_thread th res)) w = Some tw)
@@ -269,7 +272,7 @@ Proof.
   - (* PEnter *)
     pose proof (thread_cost_at _ _ _ Hc) as Cth.
     unfold gstep. rewrite Ht, Hc, Hp. unfold mu.
-    destruct (s_lock st) as [h|]; cbn [s_sh s_thr].
+    destruct (s_lock st) as [h|]; cbn [s_sh s_thr reset_reg cmap].
     + pose proof (list_sum_set_nth thread_cost (s_thr st) t th (with_pc th PWait) Ht) as S.
       rewrite (thread_cost_with_pc _ _ _ _ Hc) in S. rewrite Hp in Cth. cbn [pc_cost] in *. lia.
     + pose proof (list_sum_set_nth thread_cost (s_thr st) t th (with_pc th PLookup) Ht) as S.
